@@ -293,6 +293,36 @@ func init() {
 				}
 			}
 		}
+		// nests deeper than the generators go (the model's any-depth theorems C14N / C14C, tied to the engine here): k
+		// loops of both kinds around break N / lazybreak N / plain text, k = 4..7, every N from 1 to k+1, over two elements
+		for k := 4; k <= 7; k++ {
+			for N := 0; N <= k+1; N++ {
+				for _, instr := range []string{"break", "lazybreak"} {
+					if N == 0 && instr == "lazybreak" {
+						continue
+					}
+					for _, kinds := range []string{"rrrrrrr", "ccccccc", "rcrcrcr", "crrccrc"} {
+						core := "x"
+						if N > 0 {
+							core = fmt.Sprintf("x{%% %s %d %%}y", instr, N)
+						}
+						src := core
+						for lv := 0; lv < k; lv++ {
+							v := string(rune('a' + lv))
+							if kinds[lv] == 'c' {
+								src = "{% for " + v + " := 0; " + v + " < 2; " + v + "++ %}[" + src + "]{% endfor %}"
+							} else {
+								src = "{% for _, " + v + " := range lst %}[" + src + "]{% endfor %}"
+							}
+						}
+						c := &RCase{Tpls: []TplDef{{Key: "main", Src: src + "!", KeepFmt: true}}, Meta: map[string]any{"deep-nest": k, "instr": instr, "N": N, "kinds": kinds[:k]}}
+						c.Ops = []SOp{{Kind: "strs", Name: "lst", Val: []string{"p", "q"}}, {Kind: "render", Key: "main"}}
+						cases = append(cases, c)
+						r.Dist["deep-nest"]++
+					}
+				}
+			}
+		}
 		// a depth pending in the middle loop, followed in the same body by (a) a loop that makes no iteration and whose
 		// for-else branch signals break / continue / lazybreak, (b) an include tag (of a plain template, of one whose own
 		// loop leaves a depth over, of one that ends by exit): the pending depth is neither lost nor changed by them
